@@ -188,7 +188,7 @@ static void gen_c13(uint64_t seed, uint64_t run, const std::string& tier, Plan& 
     if (m < 11) g.mutation_op();
     else if (m < 13) { Op& op = g.add("Parse"); op.a.push_back(g.slot()); op.s.push_back(""); std::string t = g.text_valid(3, 8); if (g.r.chance(1, 3)) t = g.mutate(t); if (g.r.chance(1, 8)) t = g.nest_text(); op.s.push_back(t); if (g.r.chance(1, 20)) op.fault = g.r.chance(1, 2) ? FT_STRBUF_FAIL : FT_NODESTACK_FAIL; }
     else if (m < 14) { Op& op = g.add("ParseOnDemand"); op.a.push_back(g.slot()); op.s.push_back(""); std::string t = g.text_valid(3, 4); if (g.r.chance(1, 4)) t = g.mutate(t); op.s.push_back(t); op.s.push_back(g.pspec(3)); }
-    else if (m < 16) { Op& op = g.add("ParseSchema"); op.a.push_back(g.slot()); op.s.push_back(""); std::string t = g.text_valid(3, 4); if (g.r.chance(1, 5)) t = g.mutate(t); op.s.push_back(t); }
+    else if (m < 16) { Op& op = g.add("ParseSchema"); op.a.push_back(g.slot()); op.s.push_back(""); std::string t = g.text_valid(3, 4); if (g.r.chance(1, 5)) t = g.mutate(t); op.s.push_back(t); if (g.r.chance(1, 15)) op.fault = g.r.chance(1, 2) ? FT_STRBUF_FAIL : FT_NODESTACK_FAIL; }
     else if (m < 17) { Op& op = g.add(g.r.chance(1, 2) ? "DocMove" : "DocMoveCtor"); op.a.push_back(g.slot()); op.a.push_back(g.slot()); }
     else if (m < 18) { Op& op = g.add("DocSwap"); op.a.push_back(g.slot()); op.a.push_back(g.slot()); }
     else if (m < 19) { Op& op = g.add("DocReset"); op.a.push_back(g.slot()); op.a.push_back(0); }
@@ -218,6 +218,32 @@ static void gen_c02(uint64_t seed, uint64_t run, const std::string& tier, Plan& 
       else if (tm < 9 && !last.empty()) t = last.substr(0, g.r.below(last.size() + 1));
       else if (tm < 10) { t = g.text_valid(2, 2); t = g.mutate(g.mutate(t)); }
       else if (tm < 11) { size_t len = g.r.below(40); for (size_t j = 0; j < len; j++) t += (char)g.r.below(256); }
+      else if (g.r.chance(1, 4)) {   // strings full of \\u escapes incl. surrogate pairs, lone/reversed surrogates, bad hex
+        size_t cnt = (size_t)g.r.range(1, 5);
+        t = g.r.chance(1, 2) ? "[" : "{\"k\":";
+        bool obj = t[0] == '{';
+        if (obj) t += "[";
+        for (size_t q = 0; q < cnt; q++) {
+          if (q) t += ',';
+          t += '"';
+          size_t pieces = (size_t)g.r.range(1, 12);
+          for (size_t w = 0; w < pieces; w++) {
+            char b[16];
+            switch (g.r.below(8)) {
+              case 0: snprintf(b, sizeof b, "\\ud%03x\\ud%03x", 0x800 + (unsigned)g.r.below(0x400), 0xc00 + (unsigned)g.r.below(0x400)); t += b; break;   // valid pair
+              case 1: snprintf(b, sizeof b, "\\ud%03x", 0x800 + (unsigned)g.r.below(0x800)); t += b; break;                                                 // lone surrogate
+              case 2: snprintf(b, sizeof b, "\\ud%03x\\ud%03x", 0xc00 + (unsigned)g.r.below(0x400), 0x800 + (unsigned)g.r.below(0x400)); t += b; break;   // reversed
+              case 3: snprintf(b, sizeof b, "\\u%04x", (unsigned)g.r.below(0x10000)); t += b; break;
+              case 4: snprintf(b, sizeof b, "\\u%03xg", (unsigned)g.r.below(0x1000)); t += b; break;                                                         // bad hex
+              case 5: t += std::string((size_t)g.r.below(40), 'a' + (char)g.r.below(26)); break;
+              case 6: { static const char* e[] = {"\\n", "\\\\", "\\\"", "\\/", "\\b", "\\t", "\\x", "\\"}; t += e[g.r.below(8)]; break; }
+              default: t += "\xf0\x9f\x98\x80"; break;
+            }
+          }
+          t += '"';
+        }
+        if (g.r.chance(5, 6)) t += obj ? "]}" : "]";
+      }
       else if (g.r.chance(1, 3)) {   // numbers with very long mantissas and extreme exponents (slow float path)
         size_t cnt = (size_t)g.r.range(1, 3);
         t = "[";
@@ -372,6 +398,7 @@ static void gen_c19(uint64_t seed, uint64_t run, const std::string& tier, Plan& 
       std::string txt; model::WriteOpts wo; wo.ws_rng = &g.r; wo.ws_max = 3; wo.escape_more = g.r.chance(1, 3);
       model::write(t, txt, wo);
       Op& op = g.add("ParseSchema"); op.a.push_back(sl); op.s.push_back(""); op.s.push_back(txt);
+      if (g.r.chance(1, 25)) op.fault = g.r.chance(1, 2) ? FT_STRBUF_FAIL : FT_NODESTACK_FAIL;
       if (g.r.chance(1, 3)) { Op& o2 = g.add("Serialize"); o2.a.push_back(sl); o2.s.push_back(""); o2.a.push_back(0); }
       if (g.r.chance(1, 4)) g.mutation_op();
     }
